@@ -33,7 +33,7 @@ def run(ck):
             "handlePeerDisconnection notifies the handler (onDisconnection) before removePeer, each exactly once; removePeer performs "
             "peers.erase, toWrite.erase, reactor removeFd and close exactly once each on its non-throwing path, removeFd before close", 6)
     ck.rule("C08-R3", "C path automaton",
-            "in Transport::handleIncoming no handler_->onInput is reachable after handlePeerDisconnection(peer) within the call", 2)
+            "in Transport::handleIncoming no handler_->onInput is reachable after handlePeerDisconnection(peer) within the call", 1)
     ck.rule("C08-R4", "C exactly-once on all paths",
             "handlePeer performs peers.insert, onConnection and registerFd exactly once each; handleNewPeer reaches handlePeer on exactly "
             "one arm (directly or through peersQueue), never both; handleNewConnection hands every accepted descriptor to dispatchPeer", 5)
